@@ -281,7 +281,7 @@ def slice_independence(rep, pid, tier):
             rep.violation("%s raised %r when the channel count changes" % (z["name"], e), {"api": z["name"], "check": "slice"})
             continue
         # (1, 19) / (5, 2): wide and deep batches (a channel- or batch-count threshold in the code shows only there)
-        for (N, C) in ([(2, 3), (1, 4), (1, 19), (5, 2)] if tier == "quick" else [(2, 3), (1, 4), (3, 1), (3, 2), (1, 19), (5, 2), (2, 35)]):
+        for (N, C) in ([(2, 3), (1, 4), (1, 19), (5, 2), (1, 1), (19, 1)] if tier == "quick" else [(2, 3), (1, 4), (3, 1), (3, 2), (1, 19), (5, 2), (2, 35), (1, 1), (19, 1), (33, 2)]):
             x = torch.tensor(rng.integers(-8, 9, size=z["shape"](N, C)).astype(np.float64))
             outs = f(x)
             ok = len(outs) == len(outs1)
@@ -397,6 +397,112 @@ def wide_channels(rep, pid, tier):
             if bad:
                 rep.violation("%s with C = %d channels: %s" % (z["name"], C, bad), {"api": z["name"], "check": "wide_channels", "C": C})
     rep.count("wide_channel_cases", n)
+
+
+def special_values(rep, pid, tier):
+    """One (batch, channel) slice made entirely of NaN, of +inf, or of exact zeros: a linear map per slice turns it into NaN
+    (inf: non-finite) or exact zeros in THAT slice of every output and leaves every other slice bit for bit alone - a clean-up
+    of special values (nan_to_num, clamping, "skip empty slices") or a reduction across slices shows here and nowhere else."""
+    dwtlib.f64()
+    rng = np.random.default_rng(23900 + seed())
+    n = 0
+    for z in transform_zoo(tier):
+        f = z["make"]()
+        try:
+            s1 = [tuple(o.shape) for o in f(torch.zeros(z["shape"](1, 1)))]
+            s5 = [tuple(o.shape) for o in f(torch.zeros(z["shape"](1, 5)))]
+        except Exception:   # noqa
+            continue
+        axes = []
+        for p_, q_ in zip(s1, s5):
+            d = [k for k in range(len(p_)) if p_[k] != q_[k]]
+            axes.append(d[0] if len(d) == 1 and p_[d[0]] == 1 and q_[d[0]] == 5 else None)
+        x = torch.tensor(rng.standard_normal(z["shape"](3, 2)))
+        base = f(x)
+        for label, val in (("NaN", float("nan")), ("+inf", float("inf")), ("exact zeros", 0.0)):
+            x1 = x.clone()
+            x1[1, 0] = val
+            bad = None
+            try:
+                outs = f(x1)
+            except Exception as e:   # noqa
+                bad = "raised %r" % (e,)
+                outs = []
+            for o, b, ax in zip(outs, base, axes):
+                if bad or ax is None or o.shape[0] != 3:
+                    continue
+                om, bm = o.movedim(ax, 1), b.movedim(ax, 1)
+                hit = om[1, 0]
+                others_same = True
+                for n_ in range(3):
+                    for c_ in range(2):
+                        if (n_, c_) != (1, 0) and not torch.equal(om[n_, c_], bm[n_, c_]):
+                            others_same = False
+                if not others_same:
+                    bad = "another slice's result changed"
+                elif label == "exact zeros":
+                    if float(hit.abs().max()) != 0.0:
+                        bad = "the all-zero slice does not give exact zeros"
+                elif label == "NaN":
+                    if not bool((torch.isnan(hit) | (hit == 0)).all()) or not bool(torch.isnan(hit).any()):
+                        bad = "the all-NaN slice gives finite non-zero values (or no NaN at all)"
+                else:
+                    if not bool((~torch.isfinite(hit) | (hit == 0)).all()) or bool(torch.isfinite(hit).all()):
+                        bad = "the all-inf slice gives finite non-zero values (or only finite ones)"
+                if bad:
+                    break
+            rep.validated()
+            rep.nontriv(("special", z["name"], label))
+            n += 1
+            if bad:
+                rep.violation("%s with one (batch, channel) slice of %s: %s" % (z["name"], label, bad), {"api": z["name"], "check": "special_values", "value": label})
+    rep.count("special_value_cases", n)
+
+
+def expanded_operands(rep, pid, tier):
+    """Operands that are broadcast views (stride 0 along the batch axis: `template.expand(N, ...)`, zeros expanded to a batch):
+    the result is that of their contiguous copies - for the forward input and for every SINGLE operand of the inverse while the
+    others differ between items (a de-duplication of broadcast batches must not cut the other operands down to item 0)."""
+    dwtlib.f64()
+    rng = np.random.default_rng(23950 + seed())
+    n = 0
+    for z in transform_zoo(tier):
+        f = z["make"]()
+        x = torch.tensor(rng.standard_normal(z["shape"](3, 2)))
+        trials = []
+        xe = x[:1].expand(*x.shape)
+        trials.append(("the input broadcast from one item", lambda xe=xe: f(xe), lambda xe=xe: f(xe.contiguous())))
+        pyr, inv = _pyramid_and_inverse(z, x)
+        if inv is not None:
+            ts = [pyr[0]] + list(pyr[1])
+            for k_ in range(len(ts)):
+                def mk(contig, k_=k_):
+                    q = []
+                    for j_, t in enumerate(ts):
+                        if j_ == k_:
+                            e_ = t[:1].expand(*t.shape)
+                            q.append(e_.contiguous() if contig else e_)
+                        else:
+                            q.append(t)
+                    return [inv((q[0], q[1:]))]
+                trials.append(("operand %d of the inverse broadcast from one item, the others differing between items" % k_,
+                               lambda mk=mk: mk(False), lambda mk=mk: mk(True)))
+        for label, run_e, run_c in trials:
+            rep.validated()
+            rep.nontriv(("expanded", z["name"], label[:20]))
+            n += 1
+            try:
+                a, b = run_e(), run_c()
+                bad = None
+                for p_, q_ in zip(a, b):
+                    if tuple(p_.shape) != tuple(q_.shape) or float((p_ - q_).abs().max()) > 1e-12 * (float(q_.abs().max()) + 1.0):
+                        bad = "differs from the result for the contiguous copy by %.3g" % (float((p_ - q_).abs().max()) if tuple(p_.shape) == tuple(q_.shape) else float("nan"))
+                        break
+            except Exception as e:   # noqa
+                bad = "raised %r" % (e,)
+            if bad:
+                rep.violation("%s with %s: %s" % (z["name"], label, bad), {"api": z["name"], "check": "expanded_operands", "operand": label})
+    rep.count("expanded_operand_cases", n)
 
 
 def superposition(rep, pid, tier):
